@@ -305,6 +305,15 @@ Section Sort.
     intros x. rewrite sort_stable. apply Hf.
   Qed.
 
+  (* the same, as a statement about lists: a sorted permutation of l that keeps every
+     class of equal keys in its input order IS stable_sort l.  CPython documents
+     list.sort / sorted as stable, so modelling them by insertion sort loses nothing. *)
+  Theorem sort_stable_unique l l' :
+    Permutation l' l -> StronglySorted le l' ->
+    (forall x, filter (eqv x) l' = filter (eqv x) l) ->
+    l' = stable_sort leb l.
+  Proof. intros _ Hs Hf. exact (stable_sort_characterised (fun _ => l') l Hs Hf). Qed.
+
   (* when equal keys imply equal elements and no element is repeated, the result
      depends on the multiset only *)
   Lemma class_le_1 x l :
@@ -368,6 +377,73 @@ Section Sort.
   Proof. apply StronglySorted_sortedb. apply sort_sorted. Qed.
 End Sort.
 
+(* ---------- sublists (positional "unrelated lines") ---------- *)
+Inductive sublist {A} : list A -> list A -> Prop :=
+| sub_nil : sublist [] []
+| sub_skip a l l' : sublist l l' -> sublist l (a :: l')
+| sub_keep a l l' : sublist l l' -> sublist (a :: l) (a :: l').
+
+Lemma sublist_Forall {A} (P : A -> Prop) (l l' : list A) : sublist l l' -> Forall P l' -> Forall P l.
+Proof.
+  induction 1 as [|a l l' H IH|a l l' H IH]; intros HF.
+  - constructor.
+  - inversion HF; subst. apply IH. assumption.
+  - inversion HF; subst. constructor; [assumption | apply IH; assumption].
+Qed.
+
+Lemma sublist_refl {A} (l : list A) : sublist l l.
+Proof. induction l as [|c l IH]; [apply sub_nil | apply sub_keep; exact IH]. Qed.
+
+Lemma sublist_app_mid {A} (l1 seg l2 : list A) : sublist (l1 ++ l2) (l1 ++ seg ++ l2).
+Proof.
+  induction l1 as [|a l1 IH]; cbn [app].
+  - induction seg as [|b seg IHs]; cbn [app].
+    + apply sublist_refl.
+    + apply sub_skip. exact IHs.
+  - apply sub_keep. exact IH.
+Qed.
+
+Section SortSublist.
+  Context {A : Type}.
+  Variable leb : A -> A -> bool.
+  Hypothesis leb_total : forall a b, leb a b = true \/ leb b a = true.
+  Hypothesis leb_trans : forall a b c, leb a b = true -> leb b c = true -> leb a c = true.
+
+  Lemma sublist_insert_skip a s s' : sublist s s' -> sublist s (insert_by leb a s').
+  Proof.
+    induction 1 as [|y s t H IH|y s t H IH]; cbn [insert_by].
+    - apply sub_skip. apply sub_nil.
+    - destruct (leb a y); apply sub_skip; [apply sub_skip; exact H | exact IH].
+    - destruct (leb a y); [apply sub_skip; apply sub_keep; exact H | apply sub_keep; exact IH].
+  Qed.
+
+  Lemma sublist_insert_keep a s s' :
+    sublist s s' -> StronglySorted (le leb) s' -> sublist (insert_by leb a s) (insert_by leb a s').
+  Proof.
+    induction 1 as [|y s t H IH|y s t H IH]; intros Hs; cbn [insert_by].
+    - apply sub_keep. apply sub_nil.
+    - inversion Hs as [|y' t' Hst Hall]; subst.
+      destruct (leb a y) eqn:E.
+      + assert (Hle : Forall (fun z => leb a z = true) s).
+        { apply (sublist_Forall _ s t H). apply Forall_forall. intros z Hz.
+          apply (leb_trans a y z E). exact (proj1 (Forall_forall _ _) Hall z Hz). }
+        rewrite (insert_le_all leb a s Hle). apply sub_keep. apply sub_skip. exact H.
+      + apply sub_skip. apply IH. exact Hst.
+    - inversion Hs as [|y' t' Hst Hall]; subst.
+      destruct (leb a y); apply sub_keep; [apply sub_keep; exact H | apply IH; exact Hst].
+  Qed.
+
+  (* removing elements (anywhere) from the input removes exactly them from the output:
+     the relative order of the remaining elements does not depend on the removed ones *)
+  Theorem sort_sublist l l' : sublist l l' -> sublist (stable_sort leb l) (stable_sort leb l').
+  Proof.
+    induction 1 as [|a l l' H IH|a l l' H IH]; rewrite ?stable_sort_cons.
+    - apply sub_nil.
+    - apply sublist_insert_skip. exact IH.
+    - apply sublist_insert_keep; [exact IH | apply (sort_sorted leb leb_total leb_trans)].
+  Qed.
+End SortSublist.
+
 (* closed statements: the comparison's totality and transitivity are arguments *)
 Check sort_perm.
 Check sort_sorted.
@@ -389,3 +465,5 @@ Print Assumptions stable_sort_characterised.
 Print Assumptions sort_perm_unique.
 Print Assumptions sort_filter_commute.
 Print Assumptions sort_map_key.
+Print Assumptions sort_stable_unique.
+Print Assumptions sort_sublist.
